@@ -165,6 +165,23 @@ func (vc *VC) axiomApplies(ax *Clause) bool { return true }
 func (vc *VC) entryEnv() *Env {
 	env := &Env{vc: vc, vars: map[string]Term{}, cur: vc.entryHeap, old: vc.entryHeap, pkg: vc.fn.Pkg.Pkg}
 	vc.bindParams(env, vc.contract, vc.fn, nil)
+	// a closure's captured variables, by their source names: a variable captured by reference is the
+	// value its cell holds at entry (enough for preconditions, which is what closures get)
+	for _, fv := range vc.fn.FreeVars {
+		t, ok := vc.vals[fv]
+		if !ok {
+			continue
+		}
+		if _, taken := env.vars[fv.Name()]; taken {
+			continue
+		}
+		if _, isPtr := fv.Type().Underlying().(*types.Pointer); isPtr {
+			t.T = fv.Type()
+			env.vars[fv.Name()] = vc.loadPtr(vc.entryHeap, t, "true", false)
+		} else {
+			env.vars[fv.Name()] = t
+		}
+	}
 	return env
 }
 
@@ -440,6 +457,32 @@ func (vc *VC) loopEnv(hdr *ssa.BasicBlock, at *ssa.BasicBlock, cur *Heap, subst 
 		env.pre = hh
 	}
 	env.local = func(name string, pre bool) (Term, bool) {
+		if name == "rangeindex" {
+			// the hidden index of a range loop without a named index: the last index completed (-1 at first)
+			for _, in := range hdr.Instrs {
+				phi, ok := in.(*ssa.Phi)
+				if !ok {
+					break
+				}
+				if phi.Comment != "rangeindex" {
+					continue
+				}
+				if !pre && subst != nil {
+					if t, ok := subst[phi]; ok {
+						return t, true
+					}
+				}
+				if hp, ok := vc.hdrPhi[hdr]; ok && (pre || at == hdr || subst == nil) {
+					if t, ok := hp[phi]; ok {
+						return t, true
+					}
+				}
+				if t, ok := vc.vals[phi]; ok {
+					return t, true
+				}
+			}
+			return Term{}, false
+		}
 		if pre {
 			return vc.resolveLocal(name, hdr, vc.hdrHeap[hdr], nil)
 		}
@@ -533,6 +576,18 @@ func (vc *VC) loopHead(b *ssa.BasicBlock, n int, h *Heap, reach string) *Heap {
 	}
 	vc.hdrHeap[b] = hh.clone()
 	vc.hdrPhi[b] = phis
+	// automatic invariant: the hidden index of a range loop over a slice, array or string starts at -1 and
+	// is only ever incremented below the length: it is never less than -1 (a fact about the SSA form)
+	for _, in := range b.Instrs {
+		phi, ok := in.(*ssa.Phi)
+		if !ok {
+			break
+		}
+		if phi.Comment == "rangeindex" {
+			// (and below the largest int: it is -1 or an index that passed the "< length" test)
+			vc.assume(reach, and(app(">=", phis[phi].S, "(- 1)"), app("<", phis[phi].S, "9223372036854775807")))
+		}
+	}
 	// automatic invariant: a slice variable that is only ever nil, make()d or appended to in this
 	// function has a backing array allocated after function entry (proved on entry and back edges)
 	a00 := vc.get(vc.entryHeap, "$alloc")
